@@ -173,10 +173,66 @@ def _replay(K, cfg, p, ob, outcomes):
     return info
 
 
-def run_tasks(tasks, jobs=None):
+def _empty_rec(task, status, message):
+    key, cfg = task[0], task[1]
+    return {"target": key, "cfg": cfg, "cfg_label": _cfg_label(cfg), "status": status, "message": message, "paths": 0, "returns": 0, "raises": 0, "obligations": [], "used_prelude": [], "used_axioms": [], "solver_seconds": 0.0, "solver_calls": 0, "replays": [], "events": []}
+
+
+def _child(task, conn):
+    try:
+        rec = run_task(task)
+    except BaseException as e:  # never let a worker die silently
+        rec = _empty_rec(task, "error", "%s: %s" % (type(e).__name__, e))
+    try:
+        conn.send(rec)
+    finally:
+        conn.close()
+
+
+def run_tasks(tasks, jobs=None, wall_limit=None):
+    """One forked process per task (at most `jobs` at a time) with a hard wall-clock limit:
+    z3 occasionally ignores its own timeout inside non-linear reasoning; such a task is killed and
+    reported as undecided, never as a verdict."""
     jobs = jobs or min(16, os.cpu_count() or 4)
-    if len(tasks) <= 1 or jobs == 1:
+    wall_limit = wall_limit or int(os.environ.get("VERIF_TASK_WALL", "0")) or (420 if (tasks and tasks[0][2] == "quick") else 1500)
+    if jobs == 1 and len(tasks) <= 1:
         return [run_task(t) for t in tasks]
     ctxm = mp.get_context("fork")
-    with ctxm.Pool(processes=min(jobs, len(tasks)), maxtasksperchild=4) as pool:
-        return pool.map(run_task, tasks, chunksize=1)
+    results = [None] * len(tasks)
+    pending = list(range(len(tasks)))
+    running = {}
+    while pending or running:
+        while pending and len(running) < jobs:
+            i = pending.pop(0)
+            parent, child = ctxm.Pipe(duplex=False)
+            pr = ctxm.Process(target=_child, args=(tasks[i], child))
+            pr.start()
+            child.close()
+            running[i] = (pr, parent, time.time())
+        done = []
+        for i, (pr, conn, t0) in running.items():
+            if conn.poll(0):
+                try:
+                    results[i] = conn.recv()
+                except EOFError:
+                    results[i] = None
+                pr.join(5)
+                done.append(i)
+            elif not pr.is_alive():
+                pr.join()
+                done.append(i)
+            elif time.time() - t0 > wall_limit:
+                pr.terminate()
+                pr.join(5)
+                if pr.is_alive():
+                    pr.kill()
+                results[i] = _empty_rec(tasks[i], "unsupported", "task exceeded the wall-clock limit of %ds (solver did not return)" % wall_limit)
+                done.append(i)
+        for i in done:
+            pr, conn, _ = running.pop(i)
+            conn.close()
+            if results[i] is None:
+                results[i] = _empty_rec(tasks[i], "error", "worker died without a result (exit code %s)" % pr.exitcode)
+        if not done:
+            time.sleep(0.02)
+    return results
